@@ -294,6 +294,72 @@ def _(c, m, x):
     return rsome.exp(e).sum() <= r, ("expsum", ev, rv)
 
 
+
+# ---- broadcasting between the atom's argument and the other side of the comparison ------------------------------------
+
+def _bc(c, x):
+    """argument of shape (2,1), right-hand side of shape (2,2):  rhs[i,j] = d*x[j] + e0 + R0[i,j]"""
+    e, ev = lin(c, x, 2, "in")
+    d, e0 = c.fresh_real("d"), c.fresh_real("e")
+    R0 = sym_array(c, (2, 2), "R")
+    r = (d * x + e0).reshape((1, 2)) + R0
+    rv = lambda xv: np.array([[d * xv[j] + e0 + R0[i, j] for j in range(2)] for i in range(2)], dtype=object)      # noqa: E731
+    return e.reshape((2, 1)), ev, r, rv
+
+
+@case("abs-broadcast (2,1) vs (2,2)", exact=False)
+def _(c, m, x):
+    e, ev, r, rv = _bc(c, x)
+    k = _mult(c)
+    return k * abs(e) <= r, lambda xv, aux: p_and(*[p_le(k * abs(ev(xv)[i]), rv(xv)[i, j]) for i in range(2) for j in range(2)])
+
+
+@case("square-broadcast (2,1) vs (2,2)", exact=False)
+def _(c, m, x):
+    e, ev, r, rv = _bc(c, x)
+    k = _mult(c)
+    return k * rsome.square(e) <= r, lambda xv, aux: p_and(*[p_le(k * ev(xv)[i] * ev(xv)[i], rv(xv)[i, j]) for i in range(2) for j in range(2)])
+
+
+@case("square-scalar-argument vs (2,)", exact=False)
+def _(c, m, x):
+    e, ev = lin(c, x, 2, "in")
+    r, rv = _rhs(c, x, (2,))
+    return rsome.square(e[0]) <= r, lambda xv, aux: p_and(*[p_le(ev(xv)[0] * ev(xv)[0], rv(xv)[j]) for j in range(2)])
+
+
+@case("reflected-square-broadcast: (2,2) >= square (2,1)", exact=False)
+def _(c, m, x):
+    e, ev, r, rv = _bc(c, x)
+    return r >= rsome.square(e), lambda xv, aux: p_and(*[p_le(ev(xv)[i] * ev(xv)[i], rv(xv)[i, j]) for i in range(2) for j in range(2)])
+
+
+@case("exp-broadcast (2,1) vs (2,2)", exact=False)
+def _(c, m, x):
+    e, ev, r, rv = _bc(c, x)
+    k = _mult(c)
+    return k * rsome.exp(e) <= r, lambda xv, aux: p_and(*[K(ev(xv)[i], rv(xv)[i, j] / k, 1.0) for i in range(2) for j in range(2)])
+
+
+@case("exp-row (2,) vs (2,2)", exact=False)
+def _(c, m, x):
+    e, ev, r, rv = _bc(c, x)
+    return rsome.exp(e.reshape((2,))) <= r, lambda xv, aux: p_and(*[K(ev(xv)[j], rv(xv)[i, j], 1.0) for i in range(2) for j in range(2)])
+
+
+@case("log-broadcast (2,1) vs (2,2)", exact=False)
+def _(c, m, x):
+    e, ev, r, rv = _bc(c, x)
+    k = _mult(c)
+    return k * rsome.log(e) >= r, lambda xv, aux: p_and(*[K(rv(xv)[i, j] / k, ev(xv)[i], 1.0) for i in range(2) for j in range(2)])
+
+
+@case("pexp-broadcast (2,1),(2,1) vs (2,2)", exact=False)
+def _(c, m, x):
+    e, ev, r, rv = _bc(c, x)
+    s_, sv = lin(c, x, 2, "sc")
+    return rsome.pexp(e, s_.reshape((2, 1))) <= r, lambda xv, aux: p_and(*[K(ev(xv)[i], rv(xv)[i, j], sv(xv)[i]) for i in range(2) for j in range(2)])
+
 @case("entropy", exact=False)
 def _(c, m, x):
     e, ev = lin(c, x, 2, "in")
